@@ -15,9 +15,9 @@ PARTIAL = ['proved for ALL strictly parsing inputs that are representable in the
            'serialised text re-parses, in both tolerance modes, to a tree of the same shape and the same text. Side '
            'conditions: no NUL/DEL; the property\'s own (no bare sizing prefix as a command name; environment names written '
            'plainly after \\begin – finding F4b); representability: no made-up arguments, fixed-signature commands with their '
-           'arguments as declared, `{name}` groups of one token, no backslash at the very end, and – a gap of the proof, '
-           'not of the parser – no argument-less command directly followed by a brace group in the body of a math-mode '
-           'environment. Outside these (made-up arguments, `\\def` at the end of input, `\\section{a}[b]`) the squeeze case '
+           'arguments as declared, `{name}` groups of one token, no backslash at the very end (the former proof gap – an '
+           'argument-less command directly followed by a brace group in the body of a math-mode environment – is closed: '
+           'Gram.peekCond_of_peek). Outside these (made-up arguments, `\\def` at the end of input, `\\section{a}[b]`) the squeeze case '
            'is explored by the oracle; the no-drop case is proved for all inputs']
 TRUSTED = ['harness/gen_tables.py', 'correspondence harness (parsecorr.py): parse of s and of the serialised text',
            'modelled, not verified: control flow of reader.py, tokens.py, data.py serialisers']
